@@ -8,10 +8,16 @@ Definition H := mkH.
 
 Inductive hres := HR (h : hlv) (c : N).
 
+(* a tree of histories sharing prefixes: event, observed outcome, observed vector of the acting replica,
+   continuations *)
+Inductive htree := HT (e : ev) (o : outcome) (h : hlv) (kids : list htree).
+
 (* nested list literals are slow to elaborate: tables are flattened (row-major) or packed into numbers *)
 Inductive case :=
 (* a history over replicas 1..3: after every event the outcome and the vector of the acting replica *)
 | CHistory (evs : list ev) (obs : list (outcome * hlv))
+(* all histories of a bounded-exhaustive sweep that start with the same event *)
+| CHistoryTree (t : htree)
 (* tables over one vector: GetValue and maxValueForSource for every s in ss, DominatesSource for ss x vs *)
 | CUnary (h : hlv) (ss vs : list N) (gv : list (option N)) (mx : list N) (dom : list bool)
 (* InvalidateMV, AddVersion (ss x vs), AddVersionToPV (ss x vs, with the outcome code) on copies of one vector *)
@@ -20,9 +26,9 @@ Inductive case :=
 | CBinRow (h : hlv) (incs : list hlv) (uh : list hlv) (s v : N) (mg : list (option hlv))
 | CGetValue (h : hlv) (s : N) (r : option N)
 | CDominates (h : hlv) (s v : N) (r : bool)
-(* IsInConflict(local = hs[i], incoming = hs[j]) coded 1 no conflict, 2 conflict, 3 already present;
-   rows[i] = sum over j of code(i,j) * 4^j *)
-| CConflictTable (hs : list hlv) (rows : list N)
+(* IsInConflict(local = hs[i], incoming = hs[j]) coded 1 no conflict, 2 conflict, 3 already present, row-major,
+   packed 27 codes per number: sum over k of code_k * 4^k *)
+| CConflictTable (hs : list hlv) (packed : list N)
 | CConflict (hl hi : hlv) (r : N)
 | CAddVersion (h : hlv) (s v : N) (r : option hlv)
 | CInvalidate (h r : hlv)
@@ -63,6 +69,16 @@ Fixpoint pack4 (l : list N) : N :=
   | c :: r => c + 4 * pack4 r
   end.
 
+(* split a list into pieces of n elements (the last one may be shorter) *)
+Fixpoint chunks {A} (n : nat) (fuel : nat) (l : list A) : list (list A) :=
+  match fuel with
+  | O => []
+  | S f => match l with
+           | [] => []
+           | _ => firstn n l :: chunks n f (skipn n l)
+           end
+  end.
+
 Definition actor (e : ev) : N :=
   match e with EEdit r _ => r | EPull r _ _ => r | ERestart r => r end.
 
@@ -75,11 +91,19 @@ Fixpoint check_history (st : state) (evs : list ev) (obs : list (outcome * hlv))
   | _, _ => false
   end.
 
+Fixpoint check_tree (st : state) (t : htree) : bool :=
+  match t with
+  | HT e o h kids =>
+      let '(st', o') := step st e in
+      outcome_eqb o' o && hlv_eqb (rh (st' (actor e))) h && forallb (check_tree st') kids
+  end.
+
 Definition opt_hlv_eqb (a b : option hlv) : bool := option_eqb hlv_eqb a b.
 
 Definition check (c : case) : bool :=
   match c with
   | CHistory evs obs => check_history init evs obs
+  | CHistoryTree t => check_tree init t
   | CUnary h ss vs gv mx dom =>
       list_eqb (option_eqb N.eqb) (map (get_value h) ss) gv &&
       list_eqb N.eqb (map (max_value_for_source h) ss) mx &&
@@ -95,7 +119,8 @@ Definition check (c : case) : bool :=
   | CGetValue h s r => option_eqb N.eqb (get_value h s) r
   | CDominates h s v r => Bool.eqb (dominates h (s, v)) r
   | CConflictTable hs rows =>
-      list_eqb N.eqb (map (fun a => pack4 (map (fun b => status_code (is_in_conflict a b)) hs)) hs) rows
+      list_eqb N.eqb (map pack4 (chunks 27 (S (length hs * length hs))
+                                          (flat_map (fun a => map (fun b => status_code (is_in_conflict a b)) hs) hs))) rows
   | CConflict hl hi r => status_code (is_in_conflict hl hi) =? r
   | CAddVersion h s v r => opt_hlv_eqb (add_version h (s, v)) r
   | CInvalidate h r => hlv_eqb (invalidate_mv h) r
